@@ -31,6 +31,7 @@ fn gen(stream: &str, seed: u64, n: u64) -> Vec<String> {
         "tls-exhaustive" => return tls::exhaustive(),
         "srvk-exhaustive" => return srvk::exhaustive(),
         "np-exhaustive" => return np::exhaustive(),
+        "poolt-exhaustive" => return pool::exhaustive_idle(),
         _ => {}
     }
     let mut rng = rng::Rng::new(seed ^ fxhash(stream));
@@ -104,14 +105,42 @@ fn main() {
             }
         }
         Some("run") => {
+            // Each line runs on a worker thread under a wall-clock limit: an implementation that never comes back (a task that
+            // spins, a future that is never woken under the paused clock's auto-advance, ...) is an observation - `hang` - and
+            // the remaining lines still run, on a fresh worker; the stuck thread is abandoned. After three hangs the rest is
+            // answered `skipped-after-hang`.
+            let limit = std::time::Duration::from_secs(std::env::var("HDV_LINE_LIMIT").ok().and_then(|v| v.parse().ok()).unwrap_or(60));
+            fn worker() -> (std::sync::mpsc::Sender<String>, std::sync::mpsc::Receiver<String>) {
+                let (tx, rx_w) = std::sync::mpsc::channel::<String>();
+                let (tx_w, rx) = std::sync::mpsc::channel::<String>();
+                std::thread::Builder::new().stack_size(64 << 20).spawn(move || {
+                    while let Ok(line) = rx_w.recv() { if tx_w.send(run_line(&line)).is_err() { break; } }
+                }).expect("spawn worker");
+                (tx, rx)
+            }
+            let (mut tx, mut rx) = worker();
+            let mut hangs = 0;
             let stdin = std::io::stdin();
             for line in stdin.lock().lines() {
                 let line = line.unwrap();
                 if line.trim().is_empty() || line.starts_with('#') {
                     continue;
                 }
-                writeln!(out, "{}", run_line(&line)).unwrap();
+                let input = line.split(" | ").next().unwrap_or("").trim().to_string();
+                if hangs >= 3 { writeln!(out, "{input} | skipped-after-hang").unwrap(); continue; }
+                tx.send(line.clone()).unwrap();
+                match rx.recv_timeout(limit) {
+                    Ok(res) => writeln!(out, "{res}").unwrap(),
+                    Err(_) => {
+                        hangs += 1;
+                        writeln!(out, "{input} | hang").unwrap();
+                        let w = worker(); tx = w.0; rx = w.1;
+                    }
+                }
             }
+            out.flush().unwrap();
+            // abandoned workers may still be spinning
+            std::process::exit(0);
         }
         _ => {
             eprintln!("usage: hdverif gen <stream> <seed> <n> | hdverif run");
